@@ -1,6 +1,7 @@
 // shim for C20 (Aggregate): extern "C" forwarding wrappers around the real tlx::Aggregate<double> members.
 #include <cstddef>
 #include <tlx/math/aggregate.hpp>
+template class tlx::Aggregate<double>;   // emit every member (the private helpers are addressed directly by contracts and replays)
 typedef tlx::Aggregate<double> Agg;
 extern "C" void w_agg_init(Agg* a) { new (a) Agg(); }
 extern "C" void w_agg_add(Agg* a, double v) { a->add(v); }
